@@ -54,23 +54,39 @@ pub enum Style {
     Batchy,
     /// Always poll as soon as woken (one completion between polls).
     Eager,
+    /// Collect, then release: poll until Pending, then complete / drop
+    /// *everything* in flight without polling, then poll again (a
+    /// `ready_chunks`-like consumer, a barrier-like set of user futures).
+    Chunks,
 }
 
 impl Style {
     pub fn from_tape(t: &mut Tape) -> Style {
-        match t.below(5) {
+        match t.below(6) {
             3 => Style::Batchy,
             4 => Style::Eager,
+            5 => Style::Chunks,
             _ => Style::Mixed,
         }
     }
 }
 
 pub fn choose(t: &mut Tape, wants_poll: bool, opts: &[Act]) -> Act {
-    choose_styled(t, wants_poll, opts, Style::Mixed)
+    choose_styled(t, wants_poll, false, opts, Style::Mixed)
 }
 
-pub fn choose_styled(t: &mut Tape, wants_poll: bool, opts: &[Act], style: Style) -> Act {
+pub fn choose_styled(t: &mut Tape, wants_poll: bool, pending: bool, opts: &[Act], style: Style) -> Act {
+    if style == Style::Chunks {
+        let poll_ix = opts.iter().position(|a| *a == Act::Poll);
+        let completes: Vec<Act> = opts.iter().copied().filter(|a| matches!(a, Act::Complete(_))).collect();
+        if !pending || completes.is_empty() {
+            if let Some(i) = poll_ix {
+                return opts[i];
+            }
+        } else {
+            return completes[t.below(completes.len())];
+        }
+    }
     if wants_poll {
         // opts[0] is Poll
         if opts.len() == 1 {
@@ -79,7 +95,7 @@ pub fn choose_styled(t: &mut Tape, wants_poll: bool, opts: &[Act], style: Style)
         let poll = match style {
             Style::Mixed => t.below(3) < 2,
             Style::Batchy => t.below(48) == 0,
-            Style::Eager => true,
+            Style::Eager | Style::Chunks => true,
         };
         if poll {
             return opts[0];
@@ -112,7 +128,7 @@ pub fn drive(s: &mut dyn Stepper, schedule: Schedule, coop: bool) -> bool {
                     let a = if k >= max_actions {
                         opts[0]
                     } else {
-                        choose_styled(t, s.wants_poll(), &opts, style)
+                        choose_styled(t, s.wants_poll(), s.pending(), &opts, style)
                     };
                     s.apply(a);
                     k += 1;
@@ -146,7 +162,7 @@ pub fn drive(s: &mut dyn Stepper, schedule: Schedule, coop: bool) -> bool {
                             let a = if k >= max_actions {
                                 opts[0]
                             } else {
-                                choose_styled(t, s.wants_poll(), &opts, style)
+                                choose_styled(t, s.wants_poll(), s.pending(), &opts, style)
                             };
                             s.apply(a);
                             k += 1;
